@@ -595,3 +595,23 @@ def check_algebra_arithmetic(res, B, xs, case, sub):
                 res.fail(site="%s.algebra_arithmetic" % B.name, clause="numeric_api:vector_space_operations", cls="op%d" % k, detail=dict(x=p, y=q, got=o.reshape(-1), want=w), sub=sub, case=case)
         if not (_same(ev(x.param).reshape(-1), p, 0.0)[0] and _same(ev(y.param).reshape(-1), q, 0.0)[0]):
             res.fail(site="%s.algebra_arithmetic" % B.name, clause="numeric_api:arguments_not_mutated", cls="-", detail=dict(x=p, after=ev(x.param).reshape(-1)), sub=sub, case=case)
+        # the scalar given as another numeric TYPE (a type the library refuses is fine; an accepted one must scale by its value)
+        if i < 3:
+            for tag, sc in (("int", 2), ("numpy.float64", np.float64(0.25)), ("numpy.float32", np.float32(0.25)), ("numpy.int64", np.int64(-3)), ("bool", True), ("0-d array", np.array(0.5)),
+                            ("negative_zero", -0.0), ("DM_scalar", ca.DM(0.75))):
+                for side in ("right", "left"):
+                    res.count("evaluations")
+                    try:
+                        with contextlib.redirect_stdout(io.StringIO()):
+                            r_ = (x * sc) if side == "right" else (sc * x)
+                        if not hasattr(r_, "param"):
+                            res.count("refused")
+                            continue
+                        got = ev(r_.param).reshape(-1)
+                    except Exception:  # noqa: BLE001 - refusal
+                        res.count("refused")
+                        continue
+                    want_ = float(np.asarray(sc, dtype=float).reshape(-1)[0]) * p
+                    if got.shape != want_.shape or not _same(got, want_, 1e-13)[0]:
+                        res.fail(site="%s.algebra_arithmetic" % B.name, clause="numeric_api:scalar_of_any_accepted_numeric_type_scales_by_its_value", cls="%s;%s" % (tag, side),
+                                 detail=dict(x=p, scalar=repr(sc), side=side, got=got, want=want_), sub=sub, case=case)
